@@ -389,6 +389,24 @@ def structured_cases(r):
     for tail in (b"\x01", b"\x01\x09", b"\x06\x05ab", b"\x09\x00"):
         out.append(("FinishedPdu.unpack", R.assemble(cfg, 0, 1, bytes([5, 0x40]) + tail)))
         out.append(("EofPdu.unpack", R.assemble(cfg, 0, 0, bytes([4, 0x40]) + bytes(8) + tail)))
+    # TLV areas of EOF / Finished / Metadata PDUs filled with every TLV type (defined, reserved, invalid), well framed
+    for crc in (0, 1):
+        cfg2 = C.rand_cfg(r, crc=crc, large=0)
+        for t in list(range(0, 8)) + [0x10, 0x7F, 0xFF]:
+            for val in (b"", b"\x01", b"\x01\x02", b"\x10\x01a", b"\x41", r.randbytes(5)):
+                item = bytes([t, len(val)]) + val
+                for cond in (0, 4, 11):
+                    for tail in (item, item + item, R.tlv(1, R.fs_response_value(1, 0, b"a", b"", b"")) + item):
+                        out.append(("FinishedPdu.unpack", R.assemble(cfg2, 0, 1, bytes([5, (cond << 4) | 1]) + tail)))
+                        out.append(("PduFactory.from_raw", R.assemble(cfg2, 0, 1, bytes([5, (cond << 4) | 1]) + tail)))
+                        out.append(("EofPdu.unpack", R.assemble(cfg2, 0, 0, bytes([4, cond << 4]) + bytes(8) + tail)))
+                        out.append(("MetadataPdu.unpack", R.assemble(cfg2, 0, 0, bytes([7, 0x40]) + bytes(4) + b"\x01a\x01b" + tail)))
+    # service-1 reports whose source data is shorter than request id + step id + failure code, with a valid CRC
+    for (ts, sw, cw) in ((0, 1, 1), (7, 2, 4), (0, 8, 8), (7, 1, 2)):
+        for sub in range(1, 9):
+            for n in range(0, 4 + sw + cw + 2):
+                raw = P.tm(r.getrandbits(11), r.getrandbits(14), 1, sub, 0, 0, 0, r.randbytes(ts), r.randbytes(n))
+                out.append((f"Service1Tm.unpack[ts={ts},step={sw},code={cw}]", raw))
     for n in range(0, 8):
         out.append(("PduFactory.pdu_type", bytes(n)))
         out.append(("PduFactory.is_file_directive", b"\x20" * n))
